@@ -2,6 +2,7 @@ package main
 
 import (
 	"go/token"
+	"go/types"
 	"sort"
 	"strings"
 
@@ -1310,6 +1311,106 @@ func init() {
 		}
 		if n < 2 {
 			r.Errorf("C09.11: only %d selection block walks found", n)
+		}
+	})
+}
+
+func init() {
+	reg := registry["C09"]
+	reg.Meta.Rules["C09.12"] = "what a partial read stores into the caller's selection is the caller's: no slice backed by a package variable is stored into a field of a HyperslabSelection (defaults shared between calls are changed by one caller for all)"
+	reg.Meta.Rules["C09.13"] = "chunks are identified, not hashed: a map key computed from a coordinate vector is an injective encoding (the joined text of all coordinates, or a mixed-radix index whose multipliers are the per-dimension extents) - a fold key = key*K + c with a constant K maps different chunks to one key"
+	reg.Rules = append(reg.Rules, func(c *Ctx, r *Result) {
+		// ---- C09.12
+		n := 0
+		for _, fn := range c.LibFuncs() {
+			if shortPkg(fnPkgPath(fn)) != "hdf5" {
+				continue
+			}
+			for _, fs := range c.DirectFieldStores(fn) {
+				if fs.Fn != fn || !strings.HasPrefix(fs.Key, "hdf5.HyperslabSelection.") || fs.Val == nil {
+					continue
+				}
+				if _, isSlice := fs.Val.Type().Underlying().(*types.Slice); !isSlice {
+					continue
+				}
+				n++
+				bad, what := c.sharedBacking(fs.Val, 0)
+				r.Check(!bad, "C09.12", c.Name(fn)+"#"+fs.Key+"#not-shared", c.InstrPos(fs.In), "the slice stored into the selection is made for it (shared backing found: "+what+")")
+			}
+		}
+		if n == 0 {
+			r.Undec("C09.12", "hdf5#selection-defaults", "", "no slice store into a HyperslabSelection found")
+		}
+		// ---- C09.13
+		m := 0
+		for _, fn := range c.LibFuncs() {
+			if shortPkg(fnPkgPath(fn)) != "hdf5" {
+				continue
+			}
+			instrs(fn, func(in ssa.Instruction) {
+				var key ssa.Value
+				switch x := in.(type) {
+				case *ssa.MapUpdate:
+					key = x.Key
+				case *ssa.Lookup:
+					if _, isMap := x.X.Type().Underlying().(*types.Map); isMap {
+						key = x.Index
+					}
+				}
+				if key == nil {
+					return
+				}
+				call, ok := key.(*ssa.Call)
+				if !ok {
+					return
+				}
+				g := call.Call.StaticCallee()
+				if g == nil || g.Blocks == nil || !inModule(fnPkgPath(g)) || len(g.Params) == 0 {
+					return
+				}
+				// a key function over a coordinate vector
+				var vec *ssa.Parameter
+				for _, p := range g.Params {
+					if sl, ok := p.Type().Underlying().(*types.Slice); ok && isIntType(sl.Elem()) {
+						vec = p
+					}
+				}
+				if vec == nil {
+					return
+				}
+				m++
+				cons := c.Name(fn) + "#" + c.Name(g) + "#key-identifies-chunk"
+				if !isIntType(g.Signature.Results().At(0).Type()) {
+					r.Hold("C09.13", cons, c.InstrPos(in), "the key is not a fixed-width integer (text / array encoding of all coordinates)")
+					return
+				}
+				// integer key: look for the fold phi*K + elem with constant K
+				hashed := ""
+				instrs(g, func(y ssa.Instruction) {
+					bo, ok := y.(*ssa.BinOp)
+					if !ok || bo.Op != token.ADD {
+						return
+					}
+					mul, ok := bo.X.(*ssa.BinOp)
+					if !ok || mul.Op != token.MUL {
+						mul, ok = bo.Y.(*ssa.BinOp)
+						if !ok || mul.Op != token.MUL {
+							return
+						}
+					}
+					_, kx := constInt(mul.X)
+					_, ky := constInt(mul.Y)
+					_, px := mul.X.(*ssa.Phi)
+					_, py := mul.Y.(*ssa.Phi)
+					if (kx && py) || (ky && px) {
+						hashed = c.InstrPos(y)
+					}
+				})
+				r.Check(hashed == "", "C09.13", cons, c.InstrPos(in), "integer key folded with a constant multiplier ("+hashed+"): different coordinate vectors share a key")
+			})
+		}
+		if m == 0 {
+			r.Undec("C09.13", "hdf5#chunk-index-key", "", "no map keyed by a function of a coordinate vector found")
 		}
 	})
 }
